@@ -15,7 +15,8 @@ RULE = (
     "the run labelled 1..T is compared with the same run labelled t0+i for t0 in {0, 17, -3, 10^6} and with arbitrary strictly "
     "increasing labels: point sequences and recommendation must be identical. subcheck 'queries': a Hypothesis RuleBasedStateMachine "
     "over one instance of {T_HOO, HCT, VHCT, Zooming, POO} with rules step() and query() (= get_last_point(), 1-5 times in a row, at "
-    "Hypothesis-chosen rounds); the point sequence must equal that of the run without queries. Rewards are point-dependent so that "
+    "Hypothesis-chosen rounds), plus subcheck 'dense-queries' with a query before (almost) every round of a generated run; the point "
+    "sequence must equal that of the run without queries. Rewards are point-dependent so that "
     "any drift propagates. non-trivial = >= 20 rounds, point-dependent rewards, labels differ from 1..T / >= 1 query after the first "
     "expansion; distinct = SHA-1 of the case / history."
 )
@@ -92,6 +93,8 @@ def check_queries(case):
     if ref["error"]:
         return Outcome(aborted="exception:" + ref["error"].split("@")[0], classes=classes)
     late = any(int(k) >= 3 and v > 0 for k, v in q.items())
+    if len(q) > 20:
+        classes.append("dense-queries")
     pd = case["reward"].get("law") in ("peak", "peakpos", "bump")
     if late:
         classes.append("query-after-first-expansion")
@@ -119,6 +122,18 @@ def label_cases(draw, tier):
         c["labels"] = {"list": lab}
     else:
         c["labels"] = {"t0": draw(st.sampled_from([0, 0, 17, -3, 10 ** 6, 2]))}
+    return c
+
+
+@st.composite
+def dense_query_cases(draw, tier):
+    """A query before (almost) every round: side effects that need a rare coincidence (a query issued
+    exactly when a count sits on a threshold) are reached because every round is covered."""
+    quick = tier == "quick"
+    c = draw(gen.run_case(names=QUERY_ALGOS + ["VHCT", "HCT"], T_max=150 if quick else 500, n_range=(100, 300) if quick else (100, 800),
+                          laws=["peak", "peakpos", "bump", "noise", "ties"], poo_ok_only=True, script_prob=0.2, T_min=30))
+    skip = draw(st.integers(0, 3))
+    c["queries"] = {str(i): draw(st.integers(1, 2)) if skip == 0 else 1 for i in range(2, c["T"] + 1) if skip == 0 or i % (skip + 1)}
     return c
 
 
@@ -221,3 +236,4 @@ def run_shard(ctx):
     quick = ctx.tier == "quick"
     ctx.drive("labels", label_cases(ctx.tier), check_case, ctx.budget(5000, 40000))
     ctx.drive_machine("queries", make_machine(ctx.col, "queries", ctx.tier), ctx.budget(2400, 16000), steps=25 if quick else 50)
+    ctx.drive("dense-queries", dense_query_cases(ctx.tier), check_case, ctx.budget(2400, 20000))
